@@ -44,7 +44,7 @@ theorem specRun_pushes (s l : List Nat) : specRun s (pushes l) = some (l.reverse
 theorem specStep_push (s : List Nat) (x : Nat) : specStep s (pushEv x) = some (x :: s) := rfl
 
 theorem specStep_pop (s : List Nat) (v : Nat) (h1 : v ∈ s) (h2 : ∀ y ∈ s, y ≤ v) :
-    specStep s (.pop, .popOk v) = some (s.erase v) := by
+    specStep s (.pop false, .popOk v) = some (s.erase v) := by
   simp only [specStep]; rw [if_pos ⟨h1, h2⟩]
 
 theorem perm_nil_eq {s : List Nat} (h : s.Perm []) : s = [] := List.Perm.eq_nil h
@@ -154,17 +154,21 @@ theorem wf_top_nomark (h : Heap) (w : WF h) (h0 : h.mark = 0) (hl : 0 < h.data.l
 /-- Simulation of the second pass: the deferred pops are linearized where they execute; a tail element is
 linearized (its push) right before the pop that takes it, or right after the heap pop whose `reheap`
 moves it into the heap. -/
-theorem pass2_lin (dfr : List Nat) : ∀ (h : Heap) (s : List Nat), Sim h s →
-    ∃ lin sf, specRun s lin = some sf ∧ Sim (pass2 h dfr).1 sf ∧
-      (lin ++ pushes (pend (pass2 h dfr).1)).Perm (pushes (pend h) ++ strip (pass2 h dfr).2) := by
+theorem pass2_lin (dfr : List (Nat × Bool)) : (∀ p ∈ dfr, p.2 = false) → ∀ (h : Heap) (s : List Nat), Sim h s →
+    ∃ lin sf, specRun s lin = some sf ∧ Sim (pass2 h dfr).heap sf ∧ (pass2 h dfr).abort = none ∧
+      (lin ++ pushes (pend (pass2 h dfr).heap)).Perm (pushes (pend h) ++ strip (pass2 h dfr).log) := by
   induction dfr with
   | nil =>
-    intro h s hs
-    exact ⟨[], s, rfl, hs, by simp [pass2, strip]⟩
-  | cons i rest ih =>
-    intro h s hs
+    intro _ h s hs
+    exact ⟨[], s, rfl, hs, rfl, by simp [pass2, strip]⟩
+  | cons p rest ih0 =>
+    intro hnt h s hs
+    have ih := ih0 (fun q hq => hnt q (List.mem_cons_of_mem _ hq))
+    obtain ⟨i, thr⟩ := p
+    have hthr : thr = false := hnt (i, thr) (by simp)
+    subst hthr
     obtain ⟨w, hperm⟩ := hs
-    simp only [pass2]
+    simp only [pass2, Bool.false_eq_true, if_false]
     split
     · -- data empty: FAILED
       rename_i hemp
@@ -174,8 +178,8 @@ theorem pass2_lin (dfr : List Nat) : ∀ (h : Heap) (s : List Nat), Sim h s →
           simp only [heapPart]; apply List.take_eq_nil_iff.mpr; right
           exact List.eq_nil_of_length_eq_zero hemp
         rwa [this] at hperm
-      obtain ⟨lin, sf, hrun, hsim, hp⟩ := ih h s ⟨w, hperm⟩
-      refine ⟨(.pop, .popFailed) :: lin, sf, ?_, hsim, ?_⟩
+      obtain ⟨lin, sf, hrun, hsim, hab, hp⟩ := ih h s ⟨w, hperm⟩
+      refine ⟨(.pop false, .popFailed) :: lin, sf, ?_, hsim, hab, ?_⟩
       · simp only [specRun, specStep, hs0, if_true, Option.bind_some]; rw [← hs0]; exact hrun
       · simp only [strip, List.map_cons] at *
         rw [List.perm_iff_count] at *
@@ -187,8 +191,8 @@ theorem pass2_lin (dfr : List Nat) : ∀ (h : Heap) (s : List Nat), Sim h s →
       · -- shortcut: take data.back()
         rename_i hsc
         obtain ⟨w', hpart, hpend, hmax⟩ := wf_shortcut h w hsc
-        obtain ⟨lin, sf, hrun, hsim, hp⟩ := ih _ s ⟨w', by rw [hpart]; exact hperm⟩
-        refine ⟨pushEv (back h.data) :: (.pop, .popOk (back h.data)) :: lin, sf, ?_, hsim, ?_⟩
+        obtain ⟨lin, sf, hrun, hsim, hab, hp⟩ := ih _ s ⟨w', by rw [hpart]; exact hperm⟩
+        refine ⟨pushEv (back h.data) :: (.pop false, .popOk (back h.data)) :: lin, sf, ?_, hsim, hab, ?_⟩
         · simp only [specRun, specStep_push, Option.bind_some]
           rw [specStep_pop _ _ (by simp) (by
             intro y hy
@@ -210,8 +214,8 @@ theorem pass2_lin (dfr : List Nat) : ∀ (h : Heap) (s : List Nat), Sim h s →
             have : (get h.data 0 :: heapPart (reheap h)).Perm s :=
               (List.perm_append_comm (l₁ := [get h.data 0])).trans (hpp.trans hperm.symm)
             exact ((List.cons_perm_iff_perm_erase.mp this).2).symm
-          obtain ⟨lin, sf, hrun, hsim, hp⟩ := ih _ _ ⟨w', hs'⟩
-          refine ⟨(.pop, .popOk (get h.data 0)) :: lin, sf, ?_, hsim, ?_⟩
+          obtain ⟨lin, sf, hrun, hsim, hab, hp⟩ := ih _ _ ⟨w', hs'⟩
+          refine ⟨(.pop false, .popOk (get h.data 0)) :: lin, sf, ?_, hsim, hab, ?_⟩
           · simp only [specRun]
             rw [specStep_pop _ _ hmem' (fun y hy => hmax y (hperm.mem_iff.mp hy))]
             simpa using hrun
@@ -229,8 +233,8 @@ theorem pass2_lin (dfr : List Nat) : ∀ (h : Heap) (s : List Nat), Sim h s →
               have : heapPart h = [] := by simp [heapPart, h0]
               rwa [this] at hperm
             have hs' : ([] : List Nat).Perm (heapPart (reheap h)) := by simp [heapPart, hm']
-            obtain ⟨lin, sf, hrun, hsim, hp⟩ := ih _ _ ⟨w', hs'⟩
-            refine ⟨pushEv (get h.data 0) :: (.pop, .popOk (get h.data 0)) :: lin, sf, ?_, hsim, ?_⟩
+            obtain ⟨lin, sf, hrun, hsim, hab, hp⟩ := ih _ _ ⟨w', hs'⟩
+            refine ⟨pushEv (get h.data 0) :: (.pop false, .popOk (get h.data 0)) :: lin, sf, ?_, hsim, hab, ?_⟩
             · subst hs0
               simp only [specRun, specStep_push, Option.bind_some]
               rw [specStep_pop _ _ (by simp) (by simp)]
@@ -258,8 +262,8 @@ theorem pass2_lin (dfr : List Nat) : ∀ (h : Heap) (s : List Nat), Sim h s →
                 simp only [List.count_append, List.count_cons, List.count_nil, hne] at *
                 simp only [Bool.false_eq_true, if_false] at *
                 omega
-            obtain ⟨lin, sf, hrun, hsim, hp⟩ := ih _ _ ⟨w', hs'⟩
-            refine ⟨(.pop, .popOk (get h.data 0)) :: pushEv (back h.data) :: lin, sf, ?_, hsim, ?_⟩
+            obtain ⟨lin, sf, hrun, hsim, hab, hp⟩ := ih _ _ ⟨w', hs'⟩
+            refine ⟨(.pop false, .popOk (get h.data 0)) :: pushEv (back h.data) :: lin, sf, ?_, hsim, hab, ?_⟩
             · simp only [specRun]
               rw [specStep_pop _ _ hmem' (fun y hy => hmax y (hperm.mem_iff.mp hy))]
               simp only [Option.bind_some, specStep_push]
@@ -272,25 +276,32 @@ theorem pass2_lin (dfr : List Nat) : ∀ (h : Heap) (s : List Nat), Sim h s →
 
 /-- Simulation of the first pass: pushes only extend the tail (they are linearized later), a pop that takes
 `data.back()` is linearized right after the push of that element, deferred pops are not linearized yet. -/
-theorem pass1_lin (ops : List (Op × Nat)) : ∀ (h : Heap) (s : List Nat), Sim h s →
-    ∃ lin sf, specRun s lin = some sf ∧ Sim (pass1 h ops).1 sf ∧
-      (lin ++ pushes (pend (pass1 h ops).1)).Perm (pushes (pend h) ++ strip (pass1 h ops).2.1) := by
+theorem pass1_lin (ops : List (Op × Nat)) : (∀ p ∈ ops, p.1 ≠ .pop true) → ∀ (h : Heap) (s : List Nat), Sim h s →
+    ∃ lin sf, specRun s lin = some sf ∧ Sim (pass1 h ops).heap sf ∧ (pass1 h ops).abort = none ∧
+      (∀ p ∈ (pass1 h ops).dfr, p.2 = false) ∧
+      (lin ++ pushes (pend (pass1 h ops).heap)).Perm (pushes (pend h) ++ strip (pass1 h ops).log) := by
   induction ops with
   | nil =>
-    intro h s hs
-    exact ⟨[], s, rfl, hs, by simp [pass1, strip]⟩
-  | cons o rest ih =>
-    intro h s hs
+    intro _ h s hs
+    exact ⟨[], s, rfl, hs, rfl, by simp [pass1], by simp [pass1, strip]⟩
+  | cons o rest ih0 =>
+    intro hnt h s hs
+    have ih := ih0 (fun q hq => hnt q (List.mem_cons_of_mem _ hq))
     obtain ⟨w, hperm⟩ := hs
     obtain ⟨op, i⟩ := o
     cases op with
-    | pop =>
-      simp only [pass1]
+    | pop thr =>
+      have hthr : thr = false := by
+        cases thr with
+        | false => rfl
+        | true => exact absurd rfl (hnt (.pop true, i) (by simp))
+      subst hthr
+      simp only [pass1, Bool.false_eq_true, if_false]
       split
       · rename_i hsc
         obtain ⟨w', hpart, hpend, hmax⟩ := wf_shortcut h w hsc
-        obtain ⟨lin, sf, hrun, hsim, hp⟩ := ih _ s ⟨w', by rw [hpart]; exact hperm⟩
-        refine ⟨pushEv (back h.data) :: (.pop, .popOk (back h.data)) :: lin, sf, ?_, hsim, ?_⟩
+        obtain ⟨lin, sf, hrun, hsim, hab, hdf, hp⟩ := ih _ s ⟨w', by rw [hpart]; exact hperm⟩
+        refine ⟨pushEv (back h.data) :: (.pop false, .popOk (back h.data)) :: lin, sf, ?_, hsim, hab, hdf, ?_⟩
         · simp only [specRun, specStep_push, Option.bind_some]
           rw [specStep_pop _ _ (by simp) (by
             intro y hy
@@ -303,13 +314,18 @@ theorem pass1_lin (ops : List (Op × Nat)) : ∀ (h : Heap) (s : List Nat), Sim 
           rw [List.perm_iff_count] at *
           intro a; have := hp a
           simp only [List.count_append, List.count_cons, List.count_nil, List.cons_append] at *; omega
-      · exact ih h s ⟨w, hperm⟩
+      · obtain ⟨lin, sf, hrun, hsim, hab, hdf, hp⟩ := ih h s ⟨w, hperm⟩
+        refine ⟨lin, sf, hrun, hsim, hab, ?_, hp⟩
+        intro q hq
+        rcases List.mem_append.mp hq with hq | hq
+        · exact hdf q hq
+        · simp at hq; rw [hq]
     | push x thr =>
       simp only [pass1]
       split
       · rename_i hthr
-        obtain ⟨lin, sf, hrun, hsim, hp⟩ := ih h s ⟨w, hperm⟩
-        refine ⟨(.push x thr, .pushFailed) :: lin, sf, ?_, hsim, ?_⟩
+        obtain ⟨lin, sf, hrun, hsim, hab, hdf, hp⟩ := ih h s ⟨w, hperm⟩
+        refine ⟨(.push x thr, .pushFailed) :: lin, sf, ?_, hsim, hab, hdf, ?_⟩
         · subst hthr
           simpa [specRun, specStep] using hrun
         · simp only [strip, List.map_cons] at *
@@ -320,8 +336,8 @@ theorem pass1_lin (ops : List (Op × Nat)) : ∀ (h : Heap) (s : List Nat), Sim 
         have hthr : thr = false := by simpa using hthr
         subst hthr
         obtain ⟨w', hpart, hpend⟩ := wf_push h x w
-        obtain ⟨lin, sf, hrun, hsim, hp⟩ := ih _ s ⟨w', by rw [hpart]; exact hperm⟩
-        refine ⟨lin, sf, hrun, hsim, ?_⟩
+        obtain ⟨lin, sf, hrun, hsim, hab, hdf, hp⟩ := ih _ s ⟨w', by rw [hpart]; exact hperm⟩
+        refine ⟨lin, sf, hrun, hsim, hab, hdf, ?_⟩
         rw [hpend] at hp
         simp only [strip, List.map_cons, pushes, List.map_append, List.map_nil] at *
         rw [List.perm_iff_count] at *
